@@ -31,7 +31,6 @@ pub open spec fn ump_result(m: Placement, start: Square, dest: Square, piece: Ki
 }
 
 // ---- castling geometry (FIDE 3.8.2): king e->g / e->c, rook h->f / a->d on the king's rank
-pub open spec fn sq(rank: int, file: int) -> Square { Square { rank: rank as u8, file: file as u8 } }
 pub open spec fn castle_dest_ok(d: Square) -> bool { (d.rank == 0 || d.rank == 7) && (d.file == 6 || d.file == 2) }
 pub open spec fn rook_from(d: Square) -> Square { Square { rank: d.rank, file: if d.file == 6 { 7u8 } else { 0u8 } } }
 pub open spec fn rook_to(d: Square) -> Square { Square { rank: d.rank, file: if d.file == 6 { 5u8 } else { 3u8 } } }
